@@ -51,6 +51,91 @@ def classify(kind, ev, target):
     return None
 
 
+def files_of(kind, s, path):
+    """every file the store keeps (members and metadata), name -> sha1 of its bytes"""
+    import hashlib
+    out = {}
+    if kind == "vdir":
+        for n in os.listdir(path):
+            f = os.path.join(path, n)
+            if os.path.isfile(f) and not n.endswith(".tmp"):
+                out[n] = hashlib.sha1(open(f, "rb").read()).hexdigest()
+        return out
+    for name, mode, sha in s._iterblobs():
+        out[name] = hashlib.sha1(b"".join(s._get_raw(name, sha.decode() if isinstance(sha, bytes) else sha))).hexdigest()
+    try:
+        out[".xandikos"] = hashlib.sha1(b"".join(s._get_raw(".xandikos"))).hexdigest()
+    except KeyError:
+        pass
+    return out
+
+
+OPEN_STEPS = ("wtOpen", "tmpOpen", "openInPlace")
+
+
+def correspond(chk, kind, scen, events, states, audits, pre_files, post_files, target):
+    """the Lean micro-step model against the recorded events and the audited crash states"""
+    changed = [n for n in set(pre_files) | set(post_files) if pre_files.get(n) != post_files.get(n)]
+    if len(changed) > 1:
+        chk.broke("correspondence crash model: one operation changed several files", f"{kind} {scen}: {changed}")
+        return
+    if changed:
+        n = changed[0]
+        op = ("put", n, post_files[n]) if n in post_files else ("del", n)
+    else:
+        if target is None or target not in pre_files:
+            return
+        op = ("put", target, pre_files[target])
+    lines = ["cnew " + kind] + ["cput %s %s" % (enc(n), enc(t)) for n, t in sorted(pre_files.items())]
+    opl = ("put %s %s" % (enc(op[1]), enc(op[2]))) if op[0] == "put" else ("del %s" % enc(op[1]))
+    lines.append("cplan " + opl)
+    cls = [classify(kind, e, target) for e in events]
+    # model index of every crash state
+    js = []
+    for st in states:
+        k = st["k"]
+        j = 0
+        for i, c in enumerate(cls[:k]):
+            if c is None:
+                continue
+            j += 1
+            if c in OPEN_STEPS:
+                cut_here = st["variant"].startswith("cut:") and i == k - 1
+                if not cut_here:
+                    j += 1          # the write completed before the next event
+        js.append(j)
+        lines.append("ccrash %s %d" % (opl, j))
+    outs = run_driver("crash", lines)
+    base = len(pre_files) + 1
+    model_plan = [x for x in outs[base].split(",") if x and x not in ("wtWrite", "tmpWrite", "writeInPlace")]
+    real_plan = [c for c in cls if c is not None]
+    ctx = {"backend": kind, "scenario": scen, "events": [list(e) for e in events], "op": list(op)}
+    if model_plan != real_plan:
+        chk.broke(f"correspondence crash plan ({kind}, {scen['op']})",
+                  f"the code performed {real_plan}, the model's plan is {model_plan}", ctx)
+        return
+    pre, post = view_of(audits[0]), view_of(audits[len(events)])
+    for st, a, j, out in zip(states, audits, js, outs[base + 1:]):
+        v = view_of(a)
+        if v is None:
+            got = "other"
+        elif v == pre and v == post:
+            got = "same"
+        elif v == pre:
+            got = "old"
+        elif v == post:
+            got = "new"
+        else:
+            got = "other"
+        got += " nd=" + ("0" if a.get("dangling") else "1")
+        chk.count("model-verdicts-compared")
+        if got != out:
+            chk.broke(f"correspondence crash state ({kind}, {scen['op']})",
+                      f"after {st['k']} events {st['variant']} (model step {j}) the directory reads as `{got}`, the model says `{out}`",
+                      dict(ctx, crash_after=st["k"], variant=st["variant"]))
+            return
+
+
 def view_of(a):
     """(members, props) as a newly started server reads them; None if it cannot"""
     if not a.get("opens") or a.get("error"):
@@ -158,6 +243,7 @@ def run_one(chk, kind, scen):
             val = {"displayname": "New name", "description": "New description, longer than the old one " * 3,
                    "color": "#aabbcc", "comment": "a comment"}[prop]
             fn = lambda: getattr(s, "set_" + prop)(val)
+        pre_files = files_of(kind, s, path)
         events, err, states = crashdrv.crash_states(kind, os.path.join(scratch, "snaps"), path, fn)
         if isinstance(err, NotImplementedError):
             chk.count("not-implemented:" + kind + ":" + op)
@@ -171,6 +257,7 @@ def run_one(chk, kind, scen):
         ordered = plain + cut
         audits = crashdrv.run_audit(kind, [st["dir"] for st in ordered])
         judge(chk, kind, scen, events, ordered, audits, target, prop)
+        correspond(chk, kind, scen, events, ordered, audits, pre_files, files_of(kind, s, path), target)
         chk.case((kind, json.dumps(scen, sort_keys=True)), nontrivial=len(events) > 0)
         chk.count("events", len(events))
         chk.traces_validated += 1
